@@ -96,14 +96,32 @@ public:
             locker.unlock();
             QThread::msleep(10);
             locker.relock();
+            if (!m_thread)
+                return; // another thread has completed the stop meanwhile
         }
 
+        // From here on messages are only queued (see process()): the worker object goes away
+        // with its thread, and what it does not get to is processed below
+        m_stopping = true;
         m_thread->quit();
 
-        if (!m_thread->wait(3000)) {
-            m_thread->terminate();
-            m_thread->wait();
+        // The worker may have taken a message just before the stop looked at the flags above;
+        // a thread that is delivering a message is waited for, like in the loop above, and
+        // never killed in the middle of a sink. Its handlers may log themselves, which needs
+        // the mutex
+        while (!m_thread->wait(3000)) {
+            if (!m_workerBusy.loadAcquire()) {
+                m_thread->terminate();
+                m_thread->wait();
+                break;
+            }
+            locker.unlock();
+            QThread::msleep(10);
+            locker.relock();
+            if (!m_thread)
+                return;
         }
+        m_stopping = false;
 
         m_thread.clear();
         m_worker = nullptr;
@@ -122,7 +140,9 @@ public:
                 m_queue.emplace_back(lmsg);
             }
             m_pendingCount.fetchAndAddOrdered(1);
-            QCoreApplication::postEvent(m_worker, new LogEvent());
+            if (!m_stopping) {
+                QCoreApplication::postEvent(m_worker, new LogEvent());
+            }
         } else {
             BaseHandler::process(lmsg);
         }
@@ -180,6 +200,7 @@ private:
 private:
     QPointer<QThread> m_thread;
     Worker *m_worker = nullptr;
+    bool m_stopping = false;
     QMutex m_mutex;
     QMutex m_queueMutex;
     std::deque<LogMessage> m_queue;
